@@ -154,7 +154,11 @@ class Typedef(_Serializable):
     @property
     def lowermost_typedef(self):
         lowermost = self.definition
+        seen = set()
         while isinstance(lowermost, Typedef):
+            if id(lowermost) in seen:
+                raise ModelError("cyclic definition of type '%s'" % self.type_name)
+            seen.add(id(lowermost))
             lowermost = lowermost.definition
         return lowermost
 
